@@ -14,3 +14,4 @@ open GoRedis
 #print axioms C01_ctor_string_array
 #print axioms C01_ctor_float
 #print axioms C01_source_type_bytes
+#print axioms C01_source_serializer_is_the_modelled_one
